@@ -415,29 +415,53 @@ pub struct FloatDuration {
 impl FloatDuration {
     pub fn text(&self) -> String {
         let s = if self.neg { "-" } else { "" };
-        match self.form % 5 {
+        // forms 5..: whole multiples of units whose length in seconds is not a dyadic number, so that
+        // the float quotient value / unit is rounded while the value is (nearly) an exact multiple
+        let k = self.k % 20_000 + 1;
+        match self.form % 10 {
             0 => format!("{}sqrt({} s^2)", s, self.k),
             1 => format!("{}({} s^2)^(1|2)", s, self.k),
             2 => format!("{}{} exp(0) s", s, self.k),
             3 => format!("{}hypot({} s, 0 s)", s, self.k),
-            _ => format!("{}{} sqrt(2) hour", s, self.k),
+            4 => format!("{}{} sqrt(2) hour", s, self.k),
+            5 => format!("{}sqrt({}^2) year", s, k),
+            6 => format!("{}{} exp(0) year", s, k),
+            7 => format!("{}sqrt({}^2) week + {}sqrt(9) day", s, k, s),
+            8 => format!("{}hypot({} year, 0 year)", s, k),
+            _ => format!("{}{} exp(0) siderealday", s, k),
         }
     }
-    pub fn value(&self) -> f64 {
+    fn multiple(&self) -> Option<(f64, &'static str)> {
+        let k = (self.k % 20_000 + 1) as f64;
+        match self.form % 10 {
+            5 | 6 | 8 => Some((k, "year")),
+            9 => Some((k, "siderealday")),
+            _ => None,
+        }
+    }
+    /// the value in seconds; `units` gives the length of the named units
+    pub fn value(&self, unit: &dyn Fn(&str) -> f64) -> f64 {
         let sg = if self.neg { -1.0 } else { 1.0 };
-        sg * match self.form % 5 {
+        let k = (self.k % 20_000 + 1) as f64;
+        sg * match self.form % 10 {
             0 | 1 => (self.k as f64).sqrt(),
             2 | 3 => self.k as f64,
-            _ => self.k as f64 * 2f64.sqrt() * 3600.0,
+            4 => self.k as f64 * 2f64.sqrt() * 3600.0,
+            7 => k * unit("week") + 3.0 * unit("day"),
+            _ => k * self.multiple().map(|(_, u)| unit(u)).unwrap_or(1.0),
         }
     }
 }
 
 pub fn check_float_duration(env: &Env, c: &FloatDuration, st: &mut Stats) -> CaseResult {
     let text = c.text();
-    let v = c.value();
+    let ctx = &env.ctx;
+    let v = c.value(&|n: &str| ctx.lookup(n).map(|u| u.value.to_f64()).unwrap_or(f64::NAN));
     st.eval();
     st.class("float_duration_breakdown");
+    if c.form % 10 >= 5 {
+        st.class("float_duration_whole_multiple_of_a_non_dyadic_unit");
+    }
     let names = ["year", "week", "day", "hour", "minute", "second"];
     let mut units = vec![];
     for n in names {
@@ -489,6 +513,108 @@ pub fn check_float_duration(env: &Env, c: &FloatDuration, st: &mut Stats) -> Cas
     }
 }
 
+/// a float value that is (nearly) a whole multiple of a list's first unit, for lists whose units are
+/// not dyadic multiples of each other in SI (foot = 0.3048 m): the float quotient is rounded
+#[derive(Clone, Debug, Serialize, Deserialize)]
+pub struct FloatList {
+    pub k: u32,
+    pub which: u8,
+    pub form: u8,
+    pub neg: bool,
+}
+
+const FLOAT_LISTS: [(&str, &[&str]); 7] = [
+    ("foot", &["foot", "inch"]),
+    ("foot", &["yard", "foot", "inch"]),
+    ("mile", &["mile", "yard", "foot", "inch"]),
+    ("lb", &["stone", "lb", "oz"]),
+    ("degree", &["degree", "arcmin", "arcsec"]),
+    ("hour", &["day", "hour", "minute", "second"]),
+    ("furlong", &["mile", "furlong", "chain"]),
+];
+
+impl FloatList {
+    fn k(&self) -> f64 {
+        (self.k % 5000 + 1) as f64
+    }
+    pub fn text(&self) -> String {
+        let (u0, list) = FLOAT_LISTS[self.which as usize % FLOAT_LISTS.len()];
+        let k = self.k() as u64;
+        let s = if self.neg { "-" } else { "" };
+        let val = match self.form % 4 {
+            0 => format!("{}sqrt({}^2) {}", s, k, u0),
+            1 => format!("{}{} exp(0) {}", s, k, u0),
+            2 => format!("{}hypot({} {}, 0 {})", s, k, u0, u0),
+            _ => format!("{}({}^2)^(1|2) {}", s, k, u0),
+        };
+        format!("{} -> {}", val, list.join(";"))
+    }
+}
+
+pub fn check_float_list(env: &Env, c: &FloatList, st: &mut Stats) -> CaseResult {
+    let text = c.text();
+    let (u0, list) = FLOAT_LISTS[c.which as usize % FLOAT_LISTS.len()];
+    let val_of = |n: &str| env.ctx.lookup(n).map(|u| u.value.to_f64());
+    let u0v = match val_of(u0) {
+        Some(v) => v,
+        None => return Ok(()),
+    };
+    let mut units = vec![];
+    for n in list {
+        match val_of(n) {
+            Some(u) => units.push(u),
+            None => return Ok(()),
+        }
+    }
+    let v = if c.neg { -1.0 } else { 1.0 } * c.k() * u0v;
+    st.eval();
+    st.class("float_list");
+    match rinkx::eval_line(&env.ctx, &text) {
+        Out::Panic(p) => fail(env, st, &panic_signature(&p), &text, format!("panicked: {}", p)),
+        Out::Reply(QueryReply::UnitList(ul)) => {
+            let mut parts = vec![];
+            for p in ul.list.iter() {
+                match p.raw_value.as_ref() {
+                    Some(r) => parts.push(r.value.to_f64()),
+                    None => return fail(env, st, "list-part-missing", &text, "a part has no raw value".into()),
+                }
+            }
+            if parts.len() != units.len() {
+                return fail(env, st, "list-length", &text, format!("{} parts for {} units", parts.len(), units.len()));
+            }
+            st.nontrivial(&text);
+            st.nt_sample(|| json!(format!("{} => {}", text, QueryReply::UnitList(ul.clone()))));
+            let tol = 1e-9 * v.abs().max(units[units.len() - 1]);
+            let mut sum = 0.0;
+            let n = parts.len();
+            for i in 0..n {
+                if i + 1 < n && parts[i].fract() != 0.0 {
+                    return fail(env, st, "float-list-non-integer-inner-part", &text, format!("part {} is {} ({})", list[i], parts[i], QueryReply::UnitList(ul.clone())));
+                }
+                if parts[i].abs() * units[i] > tol && (parts[i] < 0.0) != (v < 0.0) {
+                    return fail(env, st, "float-list-part-sign", &text, format!("part {} = {} does not share the value's sign", list[i], parts[i]));
+                }
+                sum += parts[i] * units[i];
+            }
+            if (sum - v).abs() > tol {
+                return fail(
+                    env,
+                    st,
+                    "float-list-sum-wrong",
+                    &text,
+                    format!("the parts add up to {} (SI), the value is {} ({})", sum, v, QueryReply::UnitList(ul.clone())),
+                );
+            }
+            Ok(())
+        }
+        Out::Error(_) => {
+            st.excluded("float list refused");
+            Ok(())
+        }
+        other => fail(env, st, "float-list-reply-missing", &text, other.describe()),
+    }
+}
+
 pub fn mk_env(known: BTreeSet<String>) -> Env {
     Env {
         ctx: rinkx::new_ctx(),
@@ -531,12 +657,23 @@ pub fn run(cx: &Cx) -> Report {
         cx,
         "float-durations",
         cx.tier.pick(5_000, 100_000),
-        || (1u32..5_000_000, 0u8..5, any::<bool>()).prop_map(|(k, form, neg)| FloatDuration { k, form, neg }),
+        || (1u32..5_000_000, 0u8..10, any::<bool>()).prop_map(|(k, form, neg)| FloatDuration { k, form, neg }),
         move || mk_env(k.clone()),
         |env, c, st| check_float_duration(env, c, st),
         |c| json!({"float_duration": c, "text": c.text()}),
     ));
     rep.mark(cx, "float-durations");
+    let k = known.clone();
+    rep.absorb(par_proptest(
+        cx,
+        "float-lists",
+        cx.tier.pick(5_000, 100_000),
+        || (any::<u32>(), 0u8..7, 0u8..4, any::<bool>()).prop_map(|(k, which, form, neg)| FloatList { k, which, form, neg }),
+        move || mk_env(k.clone()),
+        |env, c, st| check_float_list(env, c, st),
+        |c| json!({"float_list": c, "text": c.text()}),
+    ));
+    rep.mark(cx, "float-lists");
     let dec = rep.stats.classes.get("must_decompose").cloned().unwrap_or(0);
     let refu = rep.stats.classes.get("must_refuse").cloned().unwrap_or(0);
     if rep.violations.is_empty() && (dec == 0 || refu == 0) {
@@ -547,6 +684,10 @@ pub fn run(cx: &Cx) -> Report {
 
 pub fn replay(cx: &Cx, _phase: &str, case: &J, st: &mut Stats) -> CaseResult {
     let env = mk_env(cx.known.clone());
+    if case.get("float_list").is_some() {
+        let c: FloatList = serde_json::from_value(case["float_list"].clone()).map_err(|e| format!("bad case: {}", e))?;
+        return check_float_list(&env, &c, st);
+    }
     if case.get("float_duration").is_some() {
         let c: FloatDuration = serde_json::from_value(case["float_duration"].clone()).map_err(|e| format!("bad case: {}", e))?;
         return check_float_duration(&env, &c, st);
